@@ -131,6 +131,16 @@ func (info *unixFileInfo) fstatat(fd int, name string) (err error) {
 // Unlike filepath.Walk, the Sys() method of the os.FileInfo object passed to
 // walkFn will be of type golang.org/x/sys/unix.Stat_t.
 func Walk(root string, walkFn filepath.WalkFunc) error {
+	// Like filepath.Walk, do not follow root if it is a symbolic link:
+	// report the link itself and do not descend into what it points to.
+	linfo := unixFileInfo{name: path.Base(root)}
+	if err := linfo.fstatat(unix.AT_FDCWD, root); err == nil &&
+		linfo.mode&os.ModeSymlink != 0 {
+		if err := walkFn(root, &linfo, nil); err != nil && err != filepath.SkipDir {
+			return err
+		}
+		return nil
+	}
 	if start, err := os.Open(root); err != nil {
 		return walkFn(root, nil, err)
 	} else {
